@@ -14,7 +14,6 @@ From GV Require Import Base.Ints Gen.Math Gen.Kernel Model.Mirror
   Proofs.MirrorResumeLoad Proofs.MirrorResumeInv Proofs.MirrorResumeStart Proofs.MirrorResumeAhead.
 Import ListNotations.
 Local Open Scope N_scope.
-Set Default Timeout 240.
 
 Definition K (ih : N) (ivs : valset) (s : kstate) : Prop := INV ih ivs s /\ pok s /\ X ih ivs s.
 
